@@ -1000,6 +1000,7 @@ macro_rules! anylen {
     ($name:ident, $ctx:ident, $n:expr, $unw:expr, ($sum:ident, $len:ident) => $ghost:expr, [$($m:ident ( $($a:expr),* )),+]) => {
         #[kani::proof]
         #[kani::unwind($unw)]
+        #[kani::solver(z3)]
         pub fn $name() {
             let mut c = $crate::tables::$ctx::new_p(P, true);
             let $sum: u8 = kani::any();
@@ -1045,6 +1046,25 @@ macro_rules! seq {
                 c.$m($($a),*);
                 c.check::<P>();
             )*
+            kani::cover!(true, "REACHED");
+        }
+    };
+}
+
+/// Same as `seq!` but asserts only on the final image (long same-kind runs whose prefixes are
+/// covered by the shorter sequences; used for the Length-field carry histories).
+#[macro_export]
+macro_rules! seq_end {
+    ($name:ident, $ctx:ident, $unw:expr, [$($m:ident ( $($a:expr),* )),* $(,)?]) => {
+        #[kani::proof]
+        #[kani::unwind($unw)]
+        pub fn $name() {
+            #[allow(unused_mut)]
+            let mut c = $crate::tables::$ctx::new_p(P, true);
+            $(
+                c.$m($($a),*);
+            )*
+            c.check::<P>();
             kani::cover!(true, "REACHED");
         }
     };
